@@ -5,6 +5,7 @@ Theorems over the query layer (`Model/Query.lean`, `Model/Api.lean`) for every d
 -/
 import WnVerif.Model.Api
 import WnVerif.Lemmas.DbAux
+import WnVerif.Props.C01
 namespace WnVerif.Props.C04
 open WnVerif.Db
 
@@ -172,5 +173,69 @@ theorem C04_frame_examples (db : Db) (sense : Nat) (lexids : List Nat) (extra : 
     intro x hx
     simp [inLex, hout x hx]
   rw [this]; simp
+
+/-! ### frame, end to end: adding a lexicon outside S does not change `synsets()` of S -/
+
+theorem iliIdOf_append (db : Db) (extra : List RIli) (k : Option Nat)
+    (hk : ∀ j, k = some j → j ∈ db.ilis.map (·.rowid)) :
+    iliIdOf { db with ilis := db.ilis ++ extra } k = iliIdOf db k := by
+  unfold iliIdOf
+  cases k with
+  | none => rfl
+  | some j =>
+    simp only
+    rw [List.find?_append]
+    obtain ⟨x, hx, hxj⟩ := List.mem_map.mp (hk j rfl)
+    cases hf : db.ilis.find? (fun x => x.rowid == j) with
+    | none =>
+      rw [List.find?_eq_none] at hf
+      have := hf x hx
+      simp [hxj] at this
+    | some y => rfl
+
+theorem frame_helper {α β} (P' P : α → Bool) (f' f : α → β) (old rows : List α) (h1 : ∀ r ∈ rows, P' r = false)
+    (h2 : ∀ o ∈ old, P' o = P o) (h3 : ∀ o ∈ old, f' o = f o) :
+    ((old ++ rows).filter P').map f' = (old.filter P).map f := by
+  rw [List.filter_append]
+  have e1 : rows.filter P' = [] := by
+    rw [List.filter_eq_nil_iff]; intro r hr; simp [h1 r hr]
+  rw [e1, List.append_nil, List.filter_congr h2]
+  apply List.map_congr_left
+  intro o ho
+  exact h3 o (List.mem_filter.mp ho).1
+
+/-- **C04, frame for synsets, end to end**: let `S` be a non-empty selection and add *any* lexicon
+(plain or extension, related or not) that is not in `S`.  Then `synsets()` of a Wordnet restricted to
+`S` — with any id / part-of-speech / ILI filter — returns exactly what it returned before, provided
+the store's synset → ILI links point at existing ILI rows. -/
+theorem C04_frame_synsets_end_to_end (norm : String → String) (dr : Nat) (db db' : Db) (l : Doc.Lexicon)
+    (h : addLexicon norm dr db l = .ok db') (S : List Nat) (hS : S ≠ [])
+    (hout : nextId (db.lexicons.map (·.rowid)) ∉ S)
+    (hlink : ∀ o ∈ db.synsets, ∀ k, o.ili = some k → k ∈ db.ilis.map (·.rowid))
+    (id pos ili : Option String) (n a : Bool) :
+    findSynsets db' id [] pos ili S n a = findSynsets db id [] pos ili S n a := by
+  obtain ⟨rows, extra, hY, hlex, hI⟩ := C01.addLexicon_synset_tables norm dr db db' l h
+  have hres : ∀ o ∈ db.synsets, iliIdOf db' o.ili = iliIdOf db o.ili := by
+    intro o ho
+    have : iliIdOf db' o.ili = iliIdOf { db with ilis := db.ilis ++ extra } o.ili := by
+      unfold iliIdOf; rw [hI]
+    rw [this]
+    exact iliIdOf_append db extra o.ili (hlink o ho)
+  unfold findSynsets
+  simp only [List.isEmpty_nil, if_true]
+  rw [hY]
+  apply frame_helper
+  · intro r hr
+    have : inLexOrAll S r.lex = false := by
+      rw [hlex r hr]
+      unfold inLexOrAll
+      have : S.isEmpty = false := by simpa [List.isEmpty_iff] using hS
+      simp [this, hout]
+    simp [this]
+  · intro o ho
+    simp only [hres o ho]
+  · intro o ho
+    unfold synsetData
+    rw [hres o ho]
 
 end WnVerif.Props.C04
